@@ -2,6 +2,7 @@ package schema
 
 import (
 	"fmt"
+	"math"
 	"reflect"
 	"strconv"
 )
@@ -113,6 +114,11 @@ func (f FloatSchema) Serialize(d any) (any, error) {
 	data, err := asFloat(d)
 	if err != nil {
 		return data, err
+	}
+	if math.IsNaN(data) && (f.MinValue != nil || f.MaxValue != nil) {
+		return data, &ConstraintError{
+			Message: "NaN does not satisfy the declared min/max bounds",
+		}
 	}
 	if f.MinValue != nil && data < *f.MinValue {
 		return data, &ConstraintError{
